@@ -164,6 +164,13 @@ def replay_layout(d):
     fresh = [pc(v) for v in make_encoder("packed", fcp, PackedEncoderContext().with_unroll_arrays(d["unroll"])).generate(dflt)]
     if again != fresh:
         return True, f"reused encoder lays the default binding out as {again[:3]}.., a fresh one as {fresh[:3]}.."
+    first = [pc(v) for v in out]
+    second = [pc(v) for v in enc.generate(impl)]
+    third = [pc(v) for v in make_encoder("packed", fcp, PackedEncoderContext().with_unroll_arrays(d["unroll"])).generate(impl)]
+    if not d.get("pre_bitstart") and (second != first or third != first):
+        k = next(i for i, (a, b, c) in enumerate(zip(first, second, third)) if a != b or a != c) if len(first) == len(second) == len(third) else 0
+        return True, (f"laying the binding out again changes the answer: first {first[k:k + 1]}, again {second[k:k + 1]}, "
+                      f"new encoder {third[k:k + 1]}")
     return False, "layout equals the reference tiling"
 
 
@@ -455,6 +462,16 @@ def replay_merge(d):
     if bad:
         return True, f"merge result {bad} (got, expected importer ++ imported)"
     return False, "merge concatenates every category"
+
+
+def replay_reflection_source(d):
+    from .checks import reflection_checks as rc
+
+    fcp = _fcp_text(rc.TEMPLATES[d["template"]])
+    bad = rc.source_mismatch(d["template"], fcp)
+    if bad:
+        return True, bad
+    return False, "the tree holds the bindings' extension fields and signal blocks as written in the source"
 
 
 def replay_reflection(d):
